@@ -24,11 +24,11 @@ EXPLANATION = ('theorems C14_* (coq/props/C14.v) hold for every value of the ind
                'on NaN-free plain values; the correspondence ties eq_model to the real eq on every pair of the universe and on thousands of random nestings')
 TRUSTED = ['modelled, not verified: numpy/pandas element access (np.vectorize over object-converted cells, Index == Index), Python == on scalars '
            '(mirrored by M_eq.scalar_eqb), the harness builder that turns a JSON value description into the Python object and into the Coq literal']
-ASSUMPTIONS = ['dict keys are ASCII strings (values may be any str)', 'pandas index / column labels are NaN-free scalars', 'finite numbers are exact: half-integers below 2^50 (VNum) or any other double carried as m*2^e (VFlt)',
+ASSUMPTIONS = ['dict keys are ASCII strings (values may be any str)', 'finite numbers are exact: half-integers below 2^50 (VNum) or any other double carried as m*2^e (VFlt)',
                'pandas extension arrays, datetime64 arrays, sets and functools.partial are outside the universe']
 EXHAUSTIVE = {'quick': False, 'thorough': False}
 
-SCALARS = ('none', 'bool', 'int', 'float', 'npint', 'npint32', 'npfloat', 'npf32', 'npbool', 'nan', 'npnan', 'npf32nan', 'inf', 'flt', 'npflt', 'nat', 'td', 'pytd', 'nptd', 'str', 'npstr', 'dt', 'ts', 'dt64')
+SCALARS = ('none', 'bool', 'int', 'float', 'npint', 'npint32', 'npfloat', 'npf32', 'npbool', 'nan', 'npnan', 'npf32nan', 'inf', 'flt', 'npflt', 'nat', 'td', 'pytd', 'nptd', 'tsz', 'str', 'npstr', 'dt', 'ts', 'dt64')
 NANS = ('nan', 'npnan', 'npf32nan')
 SEQCLS = {'Point': 1, 'P3': 2, 'MyTuple': 3, 'MyList': 4}    # namedtuples (2 / 3 fields), a tuple subclass, a list subclass
 CLS = {'dict': 0, 'Dict': 1, 'FunnyDict': 2, 'OrderedDict': 3}
@@ -39,6 +39,7 @@ DOLD = 715647 * 86400000000 + 1       # 1960-05-17 00:00:00.000001 (before the e
 DFUT = 803169 * 86400000000           # 2200-01-01 (future)
 
 # ------------------------------------------------------------------ value descriptions
+TZOFF = {'UTC': 0, 'Asia/Tokyo': 9 * 3600 * 1000000}      # fixed offsets (no DST): wall clock - offset = UTC instant
 TDUNIT = {'us': 1, 'ms': 1000, 's': 1000000, 'm': 60000000, 'h': 3600000000, 'D': 86400000000}
 def N_(*a): return list(a)
 def PT(fid, args=(), kw=()): return ['partial', fid, list(args), [[k, v] for k, v in kw]]
@@ -96,6 +97,9 @@ def pyrepr(s):
     if t == 'seq': return '%s(%s)' % (s[1], ', '.join(map(pyrepr, s[2])) if s[1] in ('Point', 'P3') else '[' + ', '.join(map(pyrepr, s[2])) + ']')
     if t == 'nptd': return 'np.timedelta64(%d, %r)' % (s[2], s[1])
     if t == 'partial': return 'functools.partial(f%d%s)' % (s[1], ''.join(', ' + pyrepr(a) for a in s[2]) + ''.join(', %s=%s' % (k, pyrepr(v)) for k, v in s[3]))
+    if t == 'tsz':
+        from implutil import us2dt
+        return 'pd.Timestamp(%r, tz=%r)' % (us2dt(s[1]).isoformat(), s[2])
     if t == 'nat': return 'pd.NaT'
     if t == 'td': return 'pd.Timedelta(microseconds=%d)' % s[1]
     if t == 'pytd': return 'datetime.timedelta(microseconds=%d)' % s[1]
@@ -140,6 +144,7 @@ def coq_val(s, ids):
     if t == 'inf': return '(VInf %s)' % ('true' if s[1] else 'false')
     if t in ('str', 'npstr'): return '(VStr %s)' % coq_str(s[1])
     if t in ('dt', 'ts', 'dt64'): return '(VDate (%d))' % s[1]
+    if t == 'tsz': return '(VFlt (%d) (2000000))' % (s[1] - TZOFF[s[2]])     # a tz-aware timestamp: its UTC instant under a reserved exponent (never equal to a naive one)
     if t == 'nat': return '(VDate (-1))'                      # the NaT singleton: a reserved date, equal only to itself
     if t == 'nptd': return '(VFlt (%d) (1000000))' % (s[2] * TDUNIT[s[1]])
     if t == 'partial':     # eq compares type, func, keywords (a dict) and args (a tuple): a container kind of its own per function
@@ -181,6 +186,7 @@ def scalar_key(s):
     if t in ('str', 'npstr'): return ('str', s[1])
     if t in ('dt', 'ts', 'dt64'): return ('date', s[1])
     if t == 'nat': return ('nat',)
+    if t == 'tsz': return ('tsz', s[1] - TZOFF[s[2]])
     if t in ('td', 'pytd'): return ('td', s[1])
     if t == 'nptd': return ('td', s[2] * TDUNIT[s[1]])
     raise ValueError(s)
@@ -264,6 +270,7 @@ def build(s):
         return SEQTYPES[s[1]](*vals) if s[1] in ('Point', 'P3') else SEQTYPES[s[1]](vals)
     if t == 'nptd': return np.timedelta64(s[2], s[1])
     if t == 'partial': return functools.partial(PFUNCS[s[1]], *[build(a) for a in s[2]], **{k: build(v) for k, v in s[3]})
+    if t == 'tsz': return pd.Timestamp(us2dt(s[1]), tz=s[2])
     if t == 'nat': return pd.NaT
     if t == 'td': return pd.Timedelta(microseconds=s[1])
     if t == 'pytd': return datetime.timedelta(microseconds=s[1])
@@ -290,15 +297,29 @@ def build(s):
         return np.array(cells, dtype={'int': np.int64, 'float': np.float64, 'bool': np.bool_, 'str': str}[dtype]).reshape(shape)
     if t in ('series', 'frame'):
         dtype = {'int': np.int64, 'float': np.float64, 'object': object, 'dt64ns': 'datetime64[ns]', 'td64ns': 'timedelta64[ns]'}[s[1]]
+        def labels(specs):
+            """the Index holding exactly these labels: Timestamps / NaT -> DatetimeIndex; a None label or strings mixed with other kinds -> object
+            Index (so that None stays None and NaN stays NaN); otherwise what pandas infers (int64 / float64 with NaN / str)"""
+            vals = [build(c) for c in specs]
+            kinds = {c[0] for c in specs}
+            if vals and kinds <= {'ts', 'tsz', 'nat'} and kinds != {'nat'} and len({c[2] for c in specs if c[0] == 'tsz'}) <= 1 and not ({'ts', 'tsz'} <= kinds):
+                return pd.DatetimeIndex(vals)
+            if 'none' in kinds or ('str' in kinds and len(kinds) > 1) or 'nat' in kinds or ({'ts', 'tsz'} <= kinds):
+                return pd.Index(vals, dtype=object)
+            return pd.Index(vals)
+        extra = (s[4] if t == 'series' else s[5]) if len(s) > (4 if t == 'series' else 5) else {}
         index = [build(c) for c in s[2]]
-        idx = None if index == list(range(len(index))) and all(type(i) is int for i in index) and index else pd.Index(index)
+        idx = None if index == list(range(len(index))) and all(type(i) is int for i in index) and index else labels(s[2])
+        if extra.get('range'):       # the same labels held by a RangeIndex(start, stop, step), e.g. what s[::2] leaves behind
+            idx = pd.RangeIndex(*extra['range'])
+            assert list(idx) == index, (list(idx), index)
         if t == 'series':
             return pd.Series([build(c) for c in s[3]], index=idx, dtype=dtype)
         cols = [build(c) for c in s[3]]
         a = np.empty(len(s[4]), dtype=object)
         for i, c in enumerate(s[4]):
             a[i] = build(c)
-        return pd.DataFrame(a.reshape(len(index), len(cols)), index=pd.Index(index) if idx is None and not index else idx, columns=pd.Index(cols), dtype=object).astype(dtype)   # dtype=object first: no inference (None must not become NaT)
+        return pd.DataFrame(a.reshape(len(index), len(cols)), index=pd.Index(index) if idx is None and not index else idx, columns=labels(s[3]), dtype=object).astype(dtype)   # dtype=object first: no inference (None must not become NaT)
     raise ValueError(s)
 
 def observe(f, *a):
@@ -533,6 +554,24 @@ def universe():
           FR('float', [I(0)], [S('a'), S('b')], [X(f3), F(3)]), FR('float', [I(0)], [S('a'), S('b')], [X(g3), F(3)]), FR('float', [I(0)], [S('a'), S('b')], [X(h3), NAN])]
     ns = lambda us: (us - 719163 * 86400000000) * 1000          # epoch nanoseconds of a model timestamp
     ix = [I(0), I(1)]
+    Z1, Z2 = ['tsz', D1, 'UTC'], ['tsz', D2, 'UTC']
+    K1, K2 = ['tsz', D1 + TZOFF['Asia/Tokyo'], 'Asia/Tokyo'], ['tsz', D2 + TZOFF['Asia/Tokyo'], 'Asia/Tokyo']     # the same instants as Z1, Z2
+    c2 = [I(1), I(2)]
+    U += [Z1, K1, ['tsz', D1, 'Asia/Tokyo'], L(Z1), SR('object', [I(0), I(1)], [Z1, ['ts', D1]]),
+          # labels: NaN / None / NaT in index and columns; float, object and datetime Index
+          SR('int', [NAN, F(2)], c2), SR('int', [F(2), NAN], c2), SR('int', [NAN, NAN], c2), SR('int', [F(0), F(2)], c2), SR('float', [NAN], [NAN]),
+          SR('int', [['none'], S('a')], c2), SR('int', [NAN, S('a')], c2), SR('int', [['nat'], S('a')], c2), SR('int', [S('a'), S('b')], c2), SR('int', [['none'], ['none']], c2),
+          SR('int', [['none'], F(2)], c2), SR('int', [['ts', D1], ['nat']], c2), SR('int', [['nat'], ['ts', D1]], c2), SR('int', [['ts', D1], ['ts', D2]], c2), SR('int', [['nat'], ['nat']], c2),
+          FR('int', [I(0)], [NAN, S('a')], c2), FR('int', [I(0)], [['none'], S('a')], c2), FR('int', [I(0)], [NAN, F(2)], c2), FR('int', [NAN, I(1)], [S('a')], c2), FR('int', [['none'], I(1)], [S('a')], c2),
+          FR('float', [['ts', D1], ['nat']], [S('a')], [F(2), NAN]), D([('a', SR('int', [NAN, F(2)], c2))]), L(SR('int', [['none'], S('a')], c2)),
+          # the same labels held by different RangeIndex objects (slices) and by an explicit Index
+          ['series', 'int', [I(0), I(2)], [I(1), I(3)], {'range': [0, 3, 2]}], ['series', 'int', [I(0), I(2)], [I(1), I(3)], {'range': [0, 4, 2]}], SR('int', [I(0), I(2)], [I(1), I(3)]),
+          ['series', 'int', [I(0), I(2)], [I(1), I(4)], {'range': [0, 4, 2]}], ['series', 'int', [I(0), I(2), I(4)], [I(1), I(3), I(5)], {'range': [0, 5, 2]}], ['series', 'int', [I(1), I(3)], [I(1), I(3)], {'range': [1, 5, 2]}],
+          ['series', 'float', [], [], {'range': [3, 3, 1]}], ['series', 'float', [], [], {'range': [5, 3, 1]}], ['series', 'float', [], [], {'range': [0, 0, 2]}],
+          ['frame', 'int', [I(0), I(2)], [S('a')], [I(1), I(3)], {'range': [0, 3, 2]}], ['frame', 'int', [I(0), I(2)], [S('a')], [I(1), I(3)], {'range': [0, 4, 2]}], FR('int', [I(0), I(2)], [S('a')], [I(1), I(3)]),
+          # tz-aware vs naive DatetimeIndex with the same wall clock; two zones, same instants
+          SR('int', [Z1, Z2], c2), SR('int', [K1, K2], c2), SR('int', [['ts', D1], ['ts', D2]], [I(1), I(2)]), SR('int', [['tsz', D1, 'Asia/Tokyo'], ['tsz', D2, 'Asia/Tokyo']], c2),
+          FR('int', [Z1, Z2], [S('a')], c2), FR('int', [['ts', D1], ['ts', D2]], [S('a')], c2), SR('dt64ns', [I(0), I(1)], [['ts', D1], ['ts', D2]])]
     U += [['nptd', 's', 1], ['nptd', 'D', 1], ['nptd', 'us', 1000000], ['nptd', 's', 2], ['nptd', 'ms', 1000], I(86400), I(1000000), F(2000000), L(['nptd', 's', 1]), L(I(1)),
           A('object', [1], [['nptd', 's', 1]]), D([('a', ['nptd', 'D', 1])]), D([('a', I(1))]),
           PT(0, [I(1)]), PT(1, [I(1)]), PT(0, [I(1)], [('a', I(2))]), PT(0, [I(1)], [('a', F(4))]), PT(0), PT(0, [NAN]), L(PT(0, [I(1)]))]
@@ -584,6 +623,11 @@ def rand_cells(rng, dtype, n):
 
 def rand_index(rng, n):
     r = rng.random()
+    if r < 0.12 and n:      # a missing label: NaN in a float index, None / NaN in an object index, NaT in a datetime index
+        kind = rng.choice(['float', 'obj', 'dt', 'tz'])
+        lab = {'float': [F(2 * i) for i in range(n)], 'obj': [S(KEYS[i]) for i in range(n)], 'dt': [['ts', D1 + i * 86400000000] for i in range(n)], 'tz': [['tsz', D1 + i * 86400000000, 'UTC'] for i in range(n)]}[kind]
+        if kind != 'tz': lab[rng.randrange(n)] = {'float': NAN, 'obj': rng.choice([NAN, ['none']]), 'dt': ['nat']}[kind]
+        return lab
     if r < 0.5: return [I(i) for i in range(n)]
     if r < 0.7: return [I(i + 5) for i in range(n)]
     if r < 0.9: return [S(KEYS[i]) for i in range(n)]
@@ -635,6 +679,7 @@ def variant(rng, s):
     if t in ('dt', 'ts', 'dt64'): return [rng.choice(['dt', 'ts', 'dt64']), s[1]]
     if t in ('flt', 'npflt'): return [rng.choice(['flt', 'npflt']), s[1]]
     if t == 'seq': return ['seq', s[1], [variant(rng, v) for v in s[2]]]
+    if t == 'tsz': return rng.choice([s, ['tsz', s[1] - TZOFF[s[2]] + TZOFF['Asia/Tokyo'], 'Asia/Tokyo'], ['tsz', s[1] - TZOFF[s[2]], 'UTC']])
     if t in ('td', 'pytd'): return rng.choice([['td', s[1]], ['pytd', s[1]], ['nptd', 'us', s[1]]])
     if t == 'nptd': return rng.choice([['nptd', 'us', s[2] * TDUNIT[s[1]]], ['td', s[2] * TDUNIT[s[1]]], ['nptd', s[1], s[2]]])
     if t == 'partial': return ['partial', s[1], [variant(rng, a) for a in s[2]], [[k, variant(rng, v)] for k, v in s[3]]]
@@ -677,6 +722,7 @@ def mutate_scalar(rng, s):
     if t in ('dt', 'ts', 'dt64'): return [t, s[1] + 1000000]
     if t == 'none': return rng.choice([I(0), NAN, S('None')])
     if t == 'nat': return ['ts', D1]
+    if t == 'tsz': return rng.choice([['tsz', s[1] + 1000000, s[2]], ['ts', s[1]], ['tsz', s[1], 'UTC' if s[2] != 'UTC' else 'Asia/Tokyo']])
     if t in ('td', 'pytd'): return [t, s[1] + 1000000]
     if t == 'nptd': return rng.choice([['nptd', s[1], s[2] + 1], ['nptd', 'D' if s[1] != 'D' else 's', s[2]], I(s[2])])
     if t in ('bool', 'npbool'): return [t, not s[1]]
